@@ -230,8 +230,13 @@ Fixpoint mkdirs_at (n : node) (cs : list str) : fres node :=
   end.
 Definition mkdirs (root : node) (p : str) : fres node := mkdirs_at root (components p).
 
-(* mkdir(path): one new directory under an existing parent *)
-Definition mkdir (root : node) (p : str) : fres node :=
+(* mkdir(path): one new directory under an existing parent; a trailing slash names the same directory
+   (stripped = path.rstrip('/'); used unless it is empty or the prefix itself) *)
+Definition mkdir_path (p : str) : str :=
+  let s := rstrip_slash p in
+  if nonempty s && negb (str_eqb s s_mem) then s else p.
+Definition mkdir (root : node) (p0 : str) : fres node :=
+  let p := mkdir_path p0 in
   match parent_and_name root p with
   | FErr e => FErr e
   | FOk (_, NFile _, _) => FErr FTypeError                (* `name in <MemoryFile>` *)
